@@ -21,7 +21,7 @@ func init() {
 	Registry["C08"] = Spec{
 		Fn:          c08,
 		Level:       "exploration",
-		Rule:        "the response scripts of C03 (incl. failing ones) are replayed under segmentations of the server byte stream: whole, one byte per read, two pieces at every offset (all offsets for streams <= 600 B, else 96 sampled), random split vectors, all 2^(n-1) splits of short (<= 12 B) responses, and with 0..3 virtual read-deadline expiries before each packet; every run is compared with the executable model (same oracle as C03) and a follow-up Ping must find the connection at a packet boundary. Proto level: library-encoded blocks and messages (plain and inside each kind of compressed frame) decoded through one-byte, half, data-with-EOF and random-chunk readers must give the values and consumption of the one-shot decode. Non-trivial = >=2 segments that split a field; distinct = (stream, segmentation)",
+		Rule:        "the response scripts of C03 (incl. failing ones) are replayed under segmentations of the server byte stream: whole, one byte per read, two pieces at every offset (all offsets for streams <= 600 B, else 96 sampled), random split vectors, all 2^(n-1) splits of short (<= 12 B) responses, with 0..3 virtual read-deadline expiries before each packet, and with every packet split after its first byte / at a random offset by a pause that would expire an armed read deadline; every run is compared with the executable model (same oracle as C03) and a follow-up Ping must find the connection at a packet boundary. Proto level: library-encoded blocks and messages (plain and inside each kind of compressed frame) decoded through one-byte, half, data-with-EOF and random-chunk readers must give the values and consumption of the one-shot decode. Non-trivial = >=2 segments that split a field; distinct = (stream, segmentation)",
 		Assumptions: []string{"only read patterns a conforming io.Reader / net.Conn may produce"},
 		MinDistinct: 500,
 	}
@@ -133,6 +133,25 @@ func c08(r *core.Run) {
 			r.SetAdd("segmentation_kinds", "idle-gaps")
 			if got != ref0 && ref0 != "trace-mismatch" && got != "trace-mismatch" && got != "hang" {
 				r.Violation("read-timeouts-change-outcome", fmt.Sprintf("script %s: read deadline expiries between packets changed the outcome", s2.Kinds()), map[string]any{"script": scriptDesc(&s2)})
+			}
+		}
+		// pauses inside packets: each packet split at a random offset after its code byte, with a
+		// silence long enough for an armed read deadline to expire (bodies are read without one)
+		for j := 0; j < 3; j++ {
+			s2 := *s
+			s2.Packets = append([]srvPacket(nil), s.Packets...)
+			for i := range s2.Packets {
+				if j == 0 || rng.Intn(2) == 0 {
+					s2.Packets[i].MidTimeout = 1 + rng.Intn(4096)
+				}
+				if j == 0 {
+					s2.Packets[i].MidTimeout = 1 // right after the first byte
+				}
+			}
+			got := c03Check(r, ci, &s2, nil, "pauses")
+			r.SetAdd("segmentation_kinds", "pause-inside-packet")
+			if got != ref0 && ref0 != "trace-mismatch" && got != "trace-mismatch" && got != "hang" {
+				r.Violation("pause-inside-packet-changes-outcome", fmt.Sprintf("script %s: a pause inside a packet (longer than the read timeout) changed the outcome: %s instead of %s", s2.Kinds(), got, ref0), map[string]any{"script": scriptDesc(&s2)})
 			}
 		}
 		// the connection must be at a packet boundary after a successful query
